@@ -10,8 +10,9 @@
    functional_extensionality_dep, classic), through Reals/Coquelicot; nothing else.
    STATUS: the coefficient identities are proved for all six waveforms, every period T > 0, amplitude, phase and offset
    and every order n >= 0; the a/b/c forms, the symmetry n -> -n and the lookup are proved.  The clause "equals the
-   series in the mean-square sense with the energy given by Parseval" is only STATED ([C08_parseval_full]); hence the
-   property as a whole is [C08_partial]. *)
+   series in the mean-square sense with the energy given by Parseval" is STATED here ([C08_parseval_full]) and PROVED in
+   Properties/C08e.v ([C08_parseval_full_holds], via the exact truncation error of C08d.v and the Basel / zeta(4) sums of
+   Theory/Basel.v). *)
 From Coq Require Import QArith.
 From Coq Require Import Reals ZArith NArith List Bool.
 Set Warnings "-ambiguous-paths".
@@ -109,8 +110,7 @@ Theorem C08_mapping_total : forall (O : rops) (i : N) (p a ph o : RT O), In i pe
 Proof. exact fourier_series_total. Qed.
 Print Assumptions C08_mapping_total.
 
-(* ---- mean-square convergence and Parseval: STATED ONLY (needs the L2 theory of Fourier series, e.g.
-   sum 1/n^2 = pi^2/6 for rect and saw); checked numerically by the harness ---- *)
+(* ---- mean-square convergence and Parseval: the statement; proved in Properties/C08e.v (C08_parseval_full_holds) ---- *)
 Definition C08_parseval_full : Prop :=
   forall (i : N) (T A phi off : R) (f : R -> R -> R -> R -> R -> R) (h : harmonics ROps),
   0 < T -> time_function ROps i = Some f -> fourier_series ROps i T A phi off = POk h ->
